@@ -55,3 +55,30 @@ impl<W> VExportMap<W> {
             r is Some ==> old(self)@.contains_key(k@) && *r->Some_0 == old(self)@[k@] && final(self)@ == old(self)@.insert(k@, *final(r->Some_0)),
     { unimplemented!() }
 }
+
+/// `let src = &mut (&mut X).take(N); src.read(buf)`: one read limited to the remaining allowance of the Take  [rewrite R8]
+#[verifier::external_body]
+pub fn vio_read_take_n<S: VRead>(s: &mut S, limit: &mut u64, buf: &mut [u8]) -> (r: std::io::Result<usize>)
+    requires old(s).wf(),
+    ensures final(s).wf(), final(s).data() == old(s).data(), final(buf)@.len() == old(buf)@.len(),
+        r is Ok ==> r->Ok_0 <= old(buf)@.len() && r->Ok_0 <= *old(limit) && r->Ok_0 <= srem(old(s))
+            && final(s).pos() == old(s).pos() + r->Ok_0 && *final(limit) == *old(limit) - r->Ok_0
+            && final(buf)@.subrange(0, r->Ok_0 as int) == old(s).data().subrange(old(s).pos() as int, old(s).pos() + r->Ok_0),
+        r is Err ==> *final(limit) == *old(limit),
+{ unimplemented!() }
+
+/// a byte slice used as a `Read` source (`&[u8]` implements Read: it yields its bytes in order)
+pub struct VSliceReader<'a> { pub s: &'a [u8], pub p: Ghost<nat> }
+impl<'a> VSliceReader<'a> {
+    #[verifier::external_body]
+    pub fn new(s: &'a [u8]) -> (r: VSliceReader<'a>)
+        ensures r.wf(), r.data() == s@, r.pos() == 0,
+    { unimplemented!() }
+}
+impl<'a> VRead for VSliceReader<'a> {
+    closed spec fn data(&self) -> Seq<u8> { self.s@ }
+    closed spec fn pos(&self) -> nat { self.p@ }
+    closed spec fn wf(&self) -> bool { self.p@ <= self.s@.len() }
+    #[verifier::external_body]
+    fn read(&mut self, buf: &mut [u8]) -> (r: std::io::Result<usize>) { unimplemented!() }
+}
